@@ -1,4 +1,5 @@
 import Varint.Lemmas.Add
+import Varint.Bridge.TaggedAdd
 import Varint.Lemmas.Tagged
 import Varint.Lemmas.External
 /-
@@ -97,6 +98,73 @@ theorem tagged_add_grow_le_max (stored origLen : Nat) (amount : Int) (bs : List 
     · simp only [Option.some.injEq] at h
       rw [← h, Tagged.enc_length]
       exact (Tagged.len_bounds _).2
+
+/-! ## the same on the machine translation of `varintTaggedAddNoGrow` / `varintTaggedAddGrow`
+
+`Gen.C.taggedAdd*` is regenerated from src/varintTagged.c on every run (slot read, `__builtin_saddll_overflow`,
+re-encode in place); `Bridge.TaggedAdd` proves it equal to the model for every slot content and every amount. -/
+
+/-- the slot holds a tagged varint: value `stored`, announced width `origLen` -/
+def Slot (bs : List Nat) (stored origLen : Nat) : Prop :=
+  (∀ b ∈ bs, b < 256) ∧ Tagged.get bs = .ok stored origLen ∧ stored < 2 ^ 64
+
+/-- C12 in full on the translated C. For every slot and every int64 amount:
+    (1) signed overflow ⇒ both forms return 0 and store nothing;
+    (2) otherwise the no-grow form stores nothing at an index ≥ the slot's width — when the sum needs more bytes it
+        stores nothing at all and returns the width required;
+    (3) whenever bytes are stored they are, at indices 0,1,…, the encoding of exactly old+amount (as int64), and the
+        return value is their number;
+    (4) the grow form stores at most 9 bytes. -/
+theorem c_tagged_add (bs : List Nat) (stored origLen : Nat) (hslot : Slot bs stored origLen) (amount : Int)
+    (ha1 : -(2 ^ 63 : Int) ≤ amount) (ha2 : amount < (2 ^ 63 : Int)) :
+    let ng := Varint.Gen.C.taggedAddNoGrow (Varint.Bridge.Tagged.bufOf bs) amount
+    let g := Varint.Gen.C.taggedAddGrow (Varint.Bridge.Tagged.bufOf bs) amount
+    (overflows stored amount → ng = (0, []) ∧ g = (0, [])) ∧
+    (∀ p ∈ ng.2, p.1 < origLen) ∧
+    (¬ overflows stored amount → origLen < Tagged.len (newVal stored amount) →
+        ng = (Tagged.len (newVal stored amount), [])) ∧
+    (¬ overflows stored amount →
+        g = (Tagged.len (newVal stored amount), Varint.Bridge.storesFrom 0 (Tagged.enc (newVal stored amount))) ∧
+        toI64 (newVal stored amount) = toI64 stored + amount ∧
+        (Tagged.len (newVal stored amount) ≤ origLen → ng = g)) ∧
+    g.2.length ≤ 9 := by
+  obtain ⟨hb, hget, hs⟩ := hslot
+  simp only []
+  rw [Varint.Bridge.TaggedAdd.taggedAddNoGrow_eq bs hb stored origLen hget hs amount ha1 ha2,
+    Varint.Bridge.TaggedAdd.taggedAddGrow_eq bs hb stored origLen hget hs amount ha1 ha2]
+  refine ⟨?_, ?_, ?_, ?_, ?_⟩
+  · intro h
+    rw [tagged_add_overflow_unchanged _ _ _ _ h, tagged_add_overflow_unchanged _ _ _ _ h]
+    exact ⟨rfl, rfl⟩
+  · intro p hp
+    cases h2 : (Tagged.add stored origLen amount false).2 with
+    | none => rw [h2] at hp; simp [Varint.Bridge.TaggedAdd.storesOf] at hp
+    | some w =>
+      rw [h2] at hp
+      have hl := tagged_add_nogrow_no_write_beyond stored origLen amount w h2
+      simp only [Varint.Bridge.TaggedAdd.storesOf] at hp
+      have hf : p.1 ∈ (Varint.Bridge.storesFrom 0 w).map Prod.fst := List.mem_map_of_mem hp
+      rw [Varint.Bridge.storesFrom_fst, List.mem_range'] at hf
+      obtain ⟨i, hi, he⟩ := hf
+      omega
+  · intro h hbig
+    rw [tagged_add_nogrow_unchanged _ _ _ h hbig]; rfl
+  · intro h
+    have hg := (tagged_add_exact_sum stored origLen amount true h (Or.inl rfl) []).1
+    refine ⟨by rw [hg]; rfl, newVal_exact _ _ h, ?_⟩
+    intro hfit
+    have hn := (tagged_add_exact_sum stored origLen amount false h (Or.inr hfit) []).1
+    rw [hn, hg]
+  · cases h2 : (Tagged.add stored origLen amount true).2 with
+    | none => simp [Varint.Bridge.TaggedAdd.storesOf]
+    | some w =>
+      have := tagged_add_grow_le_max stored origLen amount w h2
+      simp only [Varint.Bridge.TaggedAdd.storesOf, Varint.Bridge.storesFrom_length]
+      exact this
+
+/-- non-vacuity: a 2-byte slot holding 300, +5 fits, +70000 does not (no-grow leaves it alone, grow extends to 4) -/
+example : Slot [241, 60, 0, 0] 300 2 := by
+  refine ⟨by decide, by decide, by decide⟩
 
 /-! ## external -/
 
